@@ -26,7 +26,7 @@ func init() {
 	mc.Register(&mc.Property{
 		ID:    "C16",
 		Level: "exploration",
-		Rule: "E1 bounded-exhaustive enumeration: key sets = every non-empty subset (in sorted order) of the 13 strings of length ≤2 over {00,'a',ff}, each behind the stems of 0/7/8/9/16/17/24/31/32/33/64/65 bytes; every subset of 12 keys built from 4 stem variants (first byte 's'/0x00/0xff, eighth byte 0x80); every subset of the 13 strings of length ≤2 over {'a',80,c3} and over {7f,80,bf} (UTF-8 continuation and lead bytes); every subset of 5 short keys behind EVERY stem length 0..80; four large key sets taken whole (31, 63, 121 and 341 keys); every subset of the 15 strings of length ≤3 over {00,'a'} and every subset of size ≤4 of the 40 strings of length ≤3 over {00,'a',ff} behind stems of 0 and 8 bytes (thorough adds every subset of the 21 strings of length ≤2 over {00,01,'a',ff} and the subsets of size 5..6 of the 40 strings): FirstDiffBits on the set; New+CountPrefixes for every 0 ≤ s, s+2 ≤ e ≤ len and every m in {1,2,4,7,10,17}. " +
+		Rule: "E1 bounded-exhaustive enumeration: key sets = every non-empty subset (in sorted order) of the 13 strings of length ≤2 over {00,'a',ff}, each behind the stems of 0/7/8/9/16/17/24/31/32/33/64/65 bytes; every subset of 12 keys built from 4 stem variants (first byte 's'/0x00/0xff, eighth byte 0x80); every subset of the 13 strings of length ≤2 over {'a',80,c3} and over {7f,80,bf} (UTF-8 continuation and lead bytes); every subset of 5 short keys behind EVERY stem length 0..80; two key sets with a full 256-byte fan-out below one key; four large key sets taken whole (31, 63, 121 and 341 keys); every subset of the 15 strings of length ≤3 over {00,'a'} and every subset of size ≤4 of the 40 strings of length ≤3 over {00,'a',ff} behind stems of 0 and 8 bytes (thorough adds every subset of the 21 strings of length ≤2 over {00,01,'a',ff} and the subsets of size 5..6 of the 40 strings): FirstDiffBits on the set; New+CountPrefixes for every 0 ≤ s, s+2 ≤ e ≤ len and every m in {1,2,4,7,10,17}. " +
 			"Oracle: first differing index of the '0'/'1' renderings (8·min(len) for a byte-prefix); m0 = minimum over the range; counter i = number of distinct values of the bit string truncated to m0+i bits (adjacent-compare count in the hot path, cross-checked against a map count). A case is one call; non-trivial when the range holds ≥3 keys or the set has a shared stem; key sets that re-occur in a later family are executed again but counted once.",
 		Assumptions: []string{"key sets are drawn from small byte alphabets behind fixed stems; the 8-byte chunk boundaries are crossed through the stems"},
 		Run:         c16Run,
@@ -182,6 +182,23 @@ func c16Families(c *mc.Ctx) []c16Family {
 			c16Family{"len≤2 over {00,01,'a',ff}", sortS(gen.Strings([]byte{0, 1, 'a', 0xff}, 2)), []int{0, 8}, 0},
 			c16Family{"len≤3 over {00,'a',ff}, size 5..6", sortS(gen.Strings([]byte{0, 'a', 0xff}, 3)), []int{0, 8}, -6})
 	}
+	// full byte fan-out: a key, the key followed by EVERY byte value (257-way split), and a few
+	// deeper keys so that some sub-range has to split again
+	var fan []string
+	fan = append(fan, "p")
+	for b := 0; b < 256; b++ {
+		fan = append(fan, "p"+string([]byte{byte(b)}))
+	}
+	fan = append(fan, "p\x05a", "p\x05b", "p\x05c", "p\x80\x00", "p\x80\x01", "p\xff\xff", "p\xff\xff\x00")
+	var single []string
+	single = append(single, "")
+	for b := 0; b < 256; b++ {
+		single = append(single, string([]byte{byte(b)}))
+	}
+	single = append(single, "a\x00", "aa", "ab")
+	f = append(f,
+		c16Family{"full fan-out: p, p+every byte, deeper keys (264 keys)", sortS(fan), []int{0, 7}, c16Whole},
+		c16Family{"empty key, every single byte, 3 deeper keys (260 keys)", sortS(single), []int{0}, c16Whole})
 	return f
 }
 
